@@ -95,6 +95,13 @@ TEXT = [
     ("def t() { max(-1, -2) += 1 }", "t()"),
     ("def t() { var &m = max(-1, -2); m += 1; m }", "t()"),
     ("def t() { var l = [-1, 2]; var &e = l[0]; e *= 2; l }", "t()"),
+    # inline ranges: the elements may be modified in place, the next evaluation starts from the bounds again
+    ("def t() { var v = [1..4]; v[0] += 10; v[2] = 7; v }", "t()"),
+    ("def t() { var r = 0; for (x : [1..3]) { x *= 3; r += x }; r }", "t()"),
+    ("def t() { var v = [-2..2]; ++v[1]; var w = [-2..2]; [v, w] }", "t()"),
+    ("def t(n) { var s = 0; for (var i = 0; i < n; ++i) { var v = [1..3]; v[i] += 100; s += v[0] + v[1] + v[2] }; s }", "t(3)"),
+    ("def t() { var &v = [1..3]; v[0] = 9; v }", "t()"),
+    ("def t() { var v = [[1..2], [3..4]]; v[0][0] += 5; v[1].push_back(9); v }", "t()"),
     # `:=` re-seats the cell every holder shares: on a parameter bound to a literal that cell is the literal's own
     ("def over(x, lim) { var extra = 0; if (x > lim) { extra = x - lim; x := lim }; extra }", "over(50, 10)"),
     ("def over(x, lim) { var extra = 0; if (x > lim) { extra = x - lim; x := lim }; extra }; def t() { over(7, 3) + 1000 }", "t()"),
